@@ -152,6 +152,9 @@ def main(argv=None):
     for o in outs:
         if o["error"]:
             engine_errors.append((o["job"], o["error"]))
+        if o["results"] is None:
+            engine_errors.append((o["job"], "job returned no result list"))
+            continue
         for r in o["results"]:
             r["job"] = o["job"]
             if r["name"] == "canary/false-obligation":
